@@ -88,7 +88,7 @@ fn res_bytes(r: Result<Result<Vec<u8>, Box<dyn std::error::Error>>, String>) -> 
 
 /// which behaviour the code under test exhibits for the two length fields that can wrap
 /// (`w` = wraps silently, `c` = refuses); decided by probing the real code once
-pub struct Variant { pub dos: char, pub prodos: char, pub deduce: char }
+pub struct Variant { pub dos: char, pub prodos: char, pub deduce: char, pub pas: char }
 impl Variant {
     pub fn probe() -> Variant {
         let zeros = vec![0u8; 65536];
@@ -99,9 +99,14 @@ impl Variant {
         let prodos = match guarded(|| f.pack_bin(&zeros, Some(0x300), None)) { Ok(Ok(())) => 'w', _ => 'c' };
         let mut f = new_fimg(Fs::Prodos, 512);
         let deduce = match guarded(|| f.pack_tok(&[], ItemType::ApplesoftTokens, None)) { Err(_) => 'p', _ => 't' };
-        Variant { dos, prodos, deduce }
+        // Pascal text decoder: a DLE followed by a count below 32 (`p` = panics, `s` = saturates)
+        let pas = {
+            use a2kit::fs::TextConversion;
+            match guarded(|| a2kit::fs::pascal::types::TextConverter::new(vec![]).to_utf8(&[0x10, 5, 0x41])) { Err(_) => 'p', _ => 's' }
+        };
+        Variant { dos, prodos, deduce, pas }
     }
-    pub fn spec(&self) -> String { format!("{}{}{}", self.dos, self.prodos, self.deduce) }
+    pub fn spec(&self) -> String { format!("{}{}{}{}", self.dos, self.prodos, self.deduce, self.pas) }
 }
 
 const CHUNKS: [usize; 8] = [1, 2, 3, 7, 128, 256, 512, 1024];
@@ -446,7 +451,7 @@ fn case_txt(ctx: &mut Ctx, idx: usize, rng: &mut Rng, var: &Variant, fs: Fs, sel
 
 /// the converters themselves (they are also used with other terminators by the record code) and
 /// the decoders on arbitrary bytes
-fn case_conv(ctx: &mut Ctx, idx: usize, rng: &mut Rng, fs: Fs, sel: usize) {
+fn case_conv(ctx: &mut Ctx, idx: usize, rng: &mut Rng, var: &Variant, fs: Fs, sel: usize) {
     use a2kit::fs::TextConversion;
     let term: Vec<u8> = match (fs, sel % 3) { (_, 0) => vec![], (Fs::Dos, _) => vec![0x8d], (Fs::Cpm, 1) | (Fs::Fat, 1) => vec![0x0d, 0x0a], _ => vec![0x0d] };
     let (text, _, _) = gen_text(rng, sel / 3);
@@ -471,7 +476,7 @@ fn case_conv(ctx: &mut Ctx, idx: usize, rng: &mut Rng, fs: Fs, sel: usize) {
         _ => guarded(|| a2kit::fs::cpm::types::TextConverter::new(vec![]).to_utf8(&src)),
     };
     let d = match dec { Err(_) => "panic".to_string(), Ok(None) => "err".to_string(), Ok(Some(s)) => format!("ok:{}", digest(s.as_bytes())) };
-    ctx.out.q(&format!("c13 toutf8 {} {}", fs.name(), hx(&src)), &d);
+    ctx.out.q(&format!("c13 toutf8 {} {} {}", fs.name(), hx(&src), var.pas), &d);
     ctx.out.count("conv");
     ctx.out.case(format!("{} {} {}", idx, hx(text.as_bytes()), hx(&src)).as_bytes(), !text.is_empty());
 }
@@ -967,6 +972,227 @@ fn case_reuse(ctx: &mut Ctx, idx: usize, rng: &mut Rng, var: &Variant, fs: Fs, s
     ctx.out.sample(&case);
 }
 
+// ------------------------------------------------------------------------------------------------
+// section G: file images AS THE FILE SYSTEMS RETURN THEM (lock bit in the DOS type byte, CP/M attribute
+// bits in the extension, access / version bytes of the directory, whole-block chunks, CP/M record eof)
+// ------------------------------------------------------------------------------------------------
+
+/// a real small volume of each file system (fresh for every case)
+fn make_vol(fs: Fs, cpm3: bool) -> Result<Box<dyn a2kit::fs::DiskFS>, String> {
+    use a2kit::img::{names, DiskKind};
+    let e = |x: Box<dyn std::error::Error>| x.to_string();
+    Ok(match fs {
+        Fs::Dos => { let mut d = a2kit::fs::dos3x::Disk::from_img(Box::new(a2kit::img::dsk_do::DO::create(35, 16))).map_err(e)?; d.init33(254, false).map_err(e)?; Box::new(d) }
+        Fs::Prodos => { let mut d = a2kit::fs::prodos::Disk::from_img(Box::new(a2kit::img::dsk_po::PO::create(280))).map_err(e)?; d.format("VERIF", true, None).map_err(e)?; Box::new(d) }
+        Fs::Pascal => { let mut d = a2kit::fs::pascal::Disk::from_img(Box::new(a2kit::img::dsk_po::PO::create(280))).map_err(e)?; d.format("VERIF", 0xee, None).map_err(e)?; Box::new(d) }
+        Fs::Cpm => {
+            let kind = names::A2_DOS33_KIND;
+            let vers = if cpm3 { [3, 1, 0] } else { [2, 2, 3] };
+            let t = chrono::NaiveDate::from_ymd_opt(2000, 1, 1).unwrap().and_hms_opt(0, 0, 0);
+            let mut d = a2kit::fs::cpm::Disk::from_img(Box::new(a2kit::img::dsk_do::DO::create(35, 16)), a2kit::bios::dpb::DiskParameterBlock::create(&kind), vers).map_err(e)?;
+            if cpm3 { d.format("VERIF", t).map_err(e)?; } else { d.format("", None).map_err(e)?; }
+            Box::new(d)
+        }
+        Fs::Fat => {
+            let kind = DiskKind::D525(names::IBM_DSDD_9);
+            let boot = a2kit::bios::bpb::BootSector::create(&kind).map_err(e)?;
+            let mut d = a2kit::fs::fat::Disk::from_img(Box::new(a2kit::img::dsk_img::Img::create(kind)), Some(boot)).map_err(e)?;
+            d.format("VERIF", None).map_err(e)?;
+            Box::new(d)
+        }
+    })
+}
+
+fn render_auto(r: &Result<Result<a2kit::fs::UnpackedData, Box<dyn std::error::Error>>, String>) -> String {
+    use a2kit::fs::UnpackedData;
+    match r {
+        Err(_) => "panic".to_string(),
+        Ok(Err(_)) => "err".to_string(),
+        Ok(Ok(UnpackedData::Binary(b))) => format!("B:{}", digest(b)),
+        Ok(Ok(UnpackedData::Text(t))) => format!("T:{}", digest(t.as_bytes())),
+        Ok(Ok(UnpackedData::Records(r))) => format!("R:{}", render_recs(&r.map)),
+    }
+}
+
+/// what `deduce_address` must find for a program made by `gen_tokens(base)`: the load address
+fn res_s(r: Result<Result<Vec<u8>, Box<dyn std::error::Error>>, String>) -> (String, Option<Vec<u8>>) {
+    match r { Err(_) => ("panic".to_string(), None), Ok(Err(_)) => ("err".to_string(), None), Ok(Ok(v)) => (format!("ok:{}", digest(&v)), Some(v)) }
+}
+
+fn valid_utf8(b: &[u8]) -> bool { std::str::from_utf8(b).is_ok() }
+
+fn case_ret(ctx: &mut Ctx, idx: usize, rng: &mut Rng, var: &Variant, fs: Fs, sel: usize, real: bool) {
+    let kind = ["bin", "tok", "txt", "raw", "bin", "tok", "txt"][sel % 7];
+    if kind == "tok" && !matches!(fs, Fs::Dos | Fs::Prodos) { return; }
+    let cpm3 = fs == Fs::Cpm && (sel / 7) % 2 == 1;
+    // ---- the image to pack into: from a real volume (block-sized chunks, valid name) or a bare one
+    let name = match fs { Fs::Cpm | Fs::Fat => ["TEST.TXT", "PROG.BIN", "A.ASM", "NOEXT", "X.SUB", "Y.BAT"][(sel / 14) % 6], _ => "TEST" };
+    let mut vol = if real { match guarded(|| make_vol(fs, cpm3)) { Ok(Ok(v)) => Some(v), _ => { ctx.out.count("ret:no-volume"); return; } } } else { None };
+    let mut f = match &vol {
+        Some(v) => match v.new_fimg(None, false, name) { Ok(f) => f, Err(_) => { ctx.out.count("ret:no-fimg"); return; } },
+        None => {
+            let chunk = [256usize, 512, 1024, 128, 7, 3, 100, 2048][(sel / 7) % 8];
+            match fs {
+                Fs::Cpm => a2kit::fs::cpm::new_fimg(chunk, false, name).expect("new_fimg"),
+                Fs::Fat => a2kit::fs::fat::new_fimg(chunk, false, name).expect("new_fimg"),
+                _ => new_fimg(fs, chunk),
+            }
+        }
+    };
+    let chunk = f.chunk_len;
+    let init = init_spec(&f);
+    // ---- payload
+    let len_sel = match sel % 5 { 0 => 1, 1 => rng.range(2, 40), 2 => chunk.saturating_sub(rng.below(3)).max(1), 3 => chunk + rng.range(1, 5), _ => rng.range(1, 3 * chunk.min(1024)) };
+    let mut addr: Option<usize> = None;
+    let mut lang_s = "-";
+    let mut trailing: Vec<u8> = vec![];
+    let mut text = String::new();
+    let mut expect_la: Option<usize> = None;
+    let data: Data = match kind {
+        "bin" => {
+            addr = Some(match sel % 4 { 0 => 0x300, 1 => 0x4000, 2 => 0xFFFF, _ => rng.range(1, 0xFFFE) });
+            if matches!(fs, Fs::Dos | Fs::Prodos) { expect_la = addr; } else { expect_la = Some(0); }
+            if sel % 9 == 8 { let n = rng.range(1, 6); trailing = rng.bytes(n); }
+            Data::gen(rng, len_sel)
+        }
+        "tok" => {
+            let applesoft = (sel / 7) % 3 != 2;
+            lang_s = if applesoft { "a" } else { "i" };
+            let base = match sel % 3 { 0 => 0x801, 1 => 0x4001, _ => rng.range(0x200, 0xBF00) };
+            let lines = rng.range(1, 1 + (len_sel / 8).min(60));
+            if sel % 9 == 8 { let n = rng.range(1, 4); trailing = rng.bytes(n); }
+            let t = gen_tokens(rng, base, lines);
+            // the first line ends inside the first chunk (it is at most 17 bytes long)
+            expect_la = Some(if applesoft { if fs == Fs::Dos && chunk < 20 { usize::MAX } else { base } } else { 0 });
+            Data::lit(t)
+        }
+        "txt" => {
+            let n = rng.range(1, 12);
+            for _ in 0..n { let l = rng.below(40); let ind = if rng.chance(30) { rng.below(6) } else { 0 }; text += &printable_line(rng, l, ind); text.push('\n'); }
+            expect_la = Some(0);
+            Data::lit(text.as_bytes().to_vec())
+        }
+        _ => {
+            expect_la = None;
+            // a Pascal TEXT file (pack_raw types it so) whose body has a DLE followed by a count below 32
+            if fs == Fs::Pascal && (sel / 7) % 4 == 0 { let mut b = vec![0u8; 1024]; b.extend_from_slice(&[0x41, 0x42, 0x10, (sel % 32) as u8, 0x43, 0x0d]); Data::lit(b) }
+            else { Data::gen(rng, len_sel) }
+        }
+    };
+    let tr = if trailing.is_empty() { None } else { Some(trailing.as_slice()) };
+    let packed = match kind {
+        "bin" => guarded(|| f.pack_bin(&data.bytes, addr, tr)),
+        "tok" => guarded(|| f.pack_tok(&data.bytes, if lang_s == "a" { ItemType::ApplesoftTokens } else { ItemType::IntegerTokens }, tr)),
+        "txt" => guarded(|| f.pack_txt(&text)),
+        _ => guarded(|| f.pack_raw(&data.bytes)),
+    };
+    if !matches!(packed, Ok(Ok(()))) { ctx.out.count("ret:pack-refused"); return; }
+    // ---- the decoration
+    let lock = (sel / 3) % 2 == 0;
+    let mut tbits: Vec<u8> = match fs {
+        Fs::Dos => vec![if lock { 0x80 } else { 0 }],
+        Fs::Cpm => if real { vec![if lock { 0x80 } else { 0 }, if (sel / 5) % 2 == 0 { 0x80 } else { 0 }, 0] } else { (0..3).map(|_| if rng.chance(50) { 0x80 } else { 0 }).collect() },
+        _ => vec![],
+    };
+    let mut round = if fs == Fs::Cpm && !cpm3 { 128 } else { 1 };
+    let pad: Data;
+    let h: FileImage;
+    let mut syn_tset: Option<Vec<u8>> = None;
+    if let Some(v) = vol.as_mut() {
+        // really put it into the volume, lock it, and get it back
+        let put = guarded(|| v.put(&f));
+        if !matches!(put, Ok(Ok(_))) { ctx.out.count(&format!("ret:put-refused:{}", fs.name())); return; }
+        if lock { match guarded(|| v.lock(name)) { Ok(Ok(())) => {}, _ => { ctx.out.count(&format!("ret:lock-unsupported:{}", fs.name())); if matches!(fs, Fs::Dos | Fs::Cpm) { tbits[0] = 0; } } } }
+        if fs == Fs::Cpm && tbits[1] == 0x80 { match guarded(|| v.retype(name, "sys", "")) { Ok(Ok(())) => {}, _ => { tbits[1] = 0; } } }
+        h = match guarded(|| v.get(name)) { Ok(Ok(h)) => h, _ => {
+            ctx.out.oracle(false, "get-after-put", &format!("c13/{}/returned/get-failed", fs.module()), &format!("idx={} ret real fs={} kind={}", idx, fs.name(), kind)); return; } };
+        pad = Data::pat(chunk, 0, 0);
+    } else {
+        pad = match sel % 3 { 0 => Data::pat(chunk, 0, 0), 1 => Data::pat(chunk, 0, 0x1a), _ => { let a = rng.range(1, 255); let b = rng.below(256); Data::pat(chunk, a, b) } };
+        if fs == Fs::Cpm && sel % 2 == 0 { round = 1; }
+        let mut g = f;
+        if let Some(k) = g.chunks.keys().max().cloned() { let c = g.chunks.get_mut(&k).unwrap(); let need = chunk.saturating_sub(c.len()); c.extend_from_slice(&pad.bytes[..need]); }
+        for (i, b) in tbits.iter().enumerate() { if i < g.fs_type.len() { g.fs_type[i] |= b; } }
+        if fs == Fs::Cpm { let e = g.get_eof(); let r = (e + round - 1) / round * round; g.eof = (r as u32).to_le_bytes().to_vec(); }
+        if fs == Fs::Fat {
+            // the extension of the directory name, space padded; sometimes OEM code page characters
+            let ext = name.split('.').nth(1).unwrap_or("");
+            let mut t: Vec<u8> = ext.bytes().chain(std::iter::repeat(b' ')).take(3).collect();
+            match sel % 23 { 20 => { t = vec![0x8e, 0x99, 0x9a]; } 21 => { t = vec![0xc3, 0xa9, 0x20]; } 22 => { t = vec![0x54, 0x58, 0xd4]; } _ => {} }
+            g.fs_type = t;
+            syn_tset = Some(g.fs_type.clone());
+        }
+        let n = g.access.len(); g.access = rng.bytes(n);
+        let n = g.version.len(); g.version = rng.bytes(n);
+        let n = g.min_version.len(); g.min_version = rng.bytes(n);
+        h = g;
+    }
+    let state = if tbits.iter().any(|b| *b != 0) || (real && lock) { "locked" } else { "returned" };
+    let trunc = sel % 2 == 0;
+    // FAT takes the type from the extension of the directory name, not from the image
+    let tset = if real && fs == Fs::Fat { hx(&h.fs_type) } else if let Some(t) = &syn_tset { hx(t) } else { "=".to_string() };
+    let req = format!("c13 ret {} {} {} {} {} {} {} {} {} {} {} {} {} {} {}", fs.name(), var.spec(), chunk, init, kind,
+        if kind == "txt" { hx(text.as_bytes()) } else { data.spec.clone() },
+        match kind { "bin" => addr_spec(addr), "tok" => lang_s.to_string(), _ => "-".to_string() }, hx(&trailing),
+        hx(&tbits), tset, pad.spec, round, hx(&h.access), if trunc { 1 } else { 0 }, rec_variant());
+    let case = format!("idx={} ret {} fs={} kind={} state={} chunk={} len={} addr={} lang={} typ={} acc={} eof={} name={} data={}", idx, if real { "real-volume" } else { "synthetic" },
+        fs.name(), kind, state, chunk, data.bytes.len(), addr_spec(addr), lang_s, hx(&h.fs_type), hx(&h.access), hx(&h.eof), name, data.spec.chars().take(60).collect::<String>());
+    // ---- the real code on the returned image
+    let la = guarded(|| h.get_load_address());
+    let (bin_s, bin_v) = res_s(guarded(|| h.unpack_bin()));
+    let (tok_s, tok_v) = res_s(guarded(|| h.unpack_tok()));
+    let txt_r = guarded(|| h.unpack_txt());
+    let (txt_s, txt_v) = match &txt_r { Err(_) => ("panic".to_string(), None), Ok(Err(_)) => ("err".to_string(), None), Ok(Ok(s)) => (format!("ok:{}", digest(s.as_bytes())), Some(s.clone())) };
+    let (raw_s, raw_v) = res_s(guarded(|| h.unpack_raw(trunc)));
+    let auto = guarded(|| h.unpack());
+    let ans = format!("ok {} la={} bin={} tok={} txt={} raw={} auto={}", img_digest(&h), match &la { Ok(v) => v.to_string(), Err(_) => "panic".to_string() },
+        bin_s, tok_s, txt_s, raw_s, render_auto(&auto));
+    ctx.out.q(&req, &ans);
+    ctx.out.count(&format!("ret:{}:{}:{}", if real { "real" } else { "syn" }, fs.name(), kind));
+    ctx.out.count(&format!("ret-state:{}", state));
+    // ---- the property: what was packed comes back, whatever the file system laid over it
+    let sig = |what: &str| format!("c13/{}/{}/{}", fs.module(), state, what);
+    let payload: Vec<u8> = match (kind, fs) { ("bin", Fs::Dos) | ("tok", Fs::Dos) => data.bytes.clone(), ("bin", _) | ("tok", _) => [data.bytes.clone(), trailing.clone()].concat(), _ => data.bytes.clone() };
+    // CP/M 2 records the length in 128 byte records: the payload is a prefix, less than one record follows
+    let same = |got: &Option<Vec<u8>>| -> bool { match got { None => false, Some(g) => if round == 128 { g.len() >= payload.len() && g[..payload.len()] == payload[..] && g.len() - payload.len() < 128 } else { *g == payload } } };
+    match kind {
+        "bin" => {
+            ctx.out.oracle(same(&bin_v), "unpack_bin(returned(pack_bin(x)))==x", &sig("unpack_bin"), &case);
+            if chunk >= 3 { ctx.out.oracle(matches!((&la, expect_la), (Ok(v), Some(a)) if *v as usize == a), "load-address-of-returned-image", &sig("load-address"), &case); }
+            if matches!(fs, Fs::Dos | Fs::Prodos | Fs::Pascal) {
+                ctx.out.oracle(matches!(&auto, Ok(Ok(a2kit::fs::UnpackedData::Binary(b))) if *b == payload), "unpack-selects-the-binary-decoder", &sig("auto-unpack"), &case);
+            }
+        }
+        "tok" => {
+            ctx.out.oracle(same(&tok_v), "unpack_tok(returned(pack_tok(x)))==x", &sig("unpack_tok"), &case);
+            if expect_la != Some(usize::MAX) { ctx.out.oracle(matches!((&la, expect_la), (Ok(v), Some(a)) if *v as usize == a), "load-address-of-returned-image", &sig("load-address"), &case); }
+            ctx.out.oracle(matches!(&auto, Ok(Ok(a2kit::fs::UnpackedData::Binary(b))) if *b == payload), "unpack-selects-the-token-decoder", &sig("auto-unpack"), &case);
+        }
+        "txt" => {
+            ctx.out.oracle(txt_v.as_deref() == Some(text.as_str()), "unpack_txt(returned(pack_txt(t)))==t", &sig("unpack_txt"), &case);
+            // an extension with OEM code page bytes cannot come back from `get` (FAT path look-up upper-cases the escaped
+            // name, so such a file is listed but not reachable): hand-made images only, compared with the model, no verdict
+            if fs == Fs::Fat && !valid_utf8(&h.fs_type) { ctx.out.count("ret:fat-non-utf8-extension"); }
+            else { ctx.out.oracle(matches!(&auto, Ok(Ok(a2kit::fs::UnpackedData::Text(t))) if *t == text), "unpack-selects-the-text-decoder", &sig("auto-unpack"), &case); }
+        }
+        _ => {
+            // raw bytes: exact where the directory has an eof and it is asked for, otherwise the data is a prefix
+            let exact = trunc && fs != Fs::Dos && round == 1;
+            let ok = match &raw_v { None => false, Some(g) => if exact { *g == payload } else { g.len() >= payload.len() && g[..payload.len()] == payload[..] } };
+            ctx.out.oracle(ok, "unpack_raw(returned(pack_raw(x)))==x", &sig("unpack_raw"), &case);
+        }
+    }
+    for (nm, p) in [("get_load_address", la.as_ref().err()), ("unpack", auto.as_ref().err()), ("unpack_txt", txt_r.as_ref().err())] {
+        if let Some(p) = p {
+            // a Pascal TEXT file whose content has a DLE followed by a count below 32 (raw bytes, a foreign or damaged file)
+            let sig = if site(p) == "src/fs/pascal/types.rs" { "c13/pascal/returned/text-indent-underflow-panics".to_string() } else { format!("panic:{}", site(p)) };
+            ctx.out.oracle(false, &format!("{}-does-not-panic", nm), &sig, &case);
+        }
+    }
+    ctx.out.case(req.as_bytes(), true);
+    ctx.out.sample(&case);
+}
+
 fn check_newfimg(ctx: &mut Ctx) {
     for fs in ALL_FS {
         let f = new_fimg(fs, 256);
@@ -1017,7 +1243,7 @@ pub fn run(ctx: &mut Ctx) {
     let n_conv = ctx.n(300, 5000);
     for k in 0..n_conv {
         let mut rng = root.fork(idx as u64);
-        if ctx.out.wants(idx) { case_conv(ctx, idx, &mut rng, ALL_FS[k % 5], k / 5); }
+        if ctx.out.wants(idx) { case_conv(ctx, idx, &mut rng, &var, ALL_FS[k % 5], k / 5); }
         idx += 1;
     }
     // ---- section C: records -----------------------------------------------------------------
@@ -1053,6 +1279,19 @@ pub fn run(ctx: &mut Ctx) {
     for k in 0..n_reuse {
         let mut rng = root.fork(idx as u64);
         if ctx.out.wants(idx) { case_reuse(ctx, idx, &mut rng, &var, ALL_FS[k % 5], k / 5); }
+        idx += 1;
+    }
+    // ---- section G: images as the file systems return them ---------------------------------------
+    let n_ret = ctx.n(1400, 20000);
+    for k in 0..n_ret {
+        let mut rng = root.fork(idx as u64);
+        if ctx.out.wants(idx) { case_ret(ctx, idx, &mut rng, &var, ALL_FS[k % 5], k / 5, false); }
+        idx += 1;
+    }
+    let n_real = ctx.n(160, 3000);
+    for k in 0..n_real {
+        let mut rng = root.fork(idx as u64);
+        if ctx.out.wants(idx) { case_ret(ctx, idx, &mut rng, &var, ALL_FS[k % 5], k / 5, true); }
         idx += 1;
     }
 }
